@@ -81,6 +81,24 @@ class ReplayPolicy:
         return cands[0]
 
 
+class Stall:
+    """Targeted search for non-re-entrant scratch state: the first thread that executes its k-th line in `file` is parked there
+    (inside whatever function it is in) until another thread has entered the same function and run m more lines - or until nothing
+    else can run.  The parked thread is an ordinary timed waiter for the scheduler, so a recorded schedule replays without it."""
+
+    def __init__(self, file, k, m):
+        self.file = file
+        self.k = k
+        self.m = m
+        self.state = 0  # 0 armed, 1 a thread is parked, 2 done
+        self.count = {}
+        self.who = None
+        self.code = None
+        self.seen = False
+        self.after = 0
+        self.token = type("StallToken", (), {"_sim_name": "stall"})()
+
+
 class Scheduler:
     def __init__(self, policy, preempt_prefix, exclude=("util/solver.py",), hot=("frontend/backend.py", "tracer/graph.py", "util/lru_cache.py", "frontend/api.py"),
                  opcode_files=(), step_cap=2_000_000, extra_files=()):
@@ -109,6 +127,7 @@ class Scheduler:
         self.stats = {"F-preempt": 0, "F-preempt-hot": 0, "F-lock-block": 0, "boundary_switches": 0}
         self.preempt_where = {}
         self._code_cache = {}
+        self.stall = None
 
     # ---- classification of code objects ---------------------------------------------------------
     def _classify(self, code):
@@ -154,6 +173,27 @@ class Scheduler:
             self._abort("step-cap")
         if self.aborted:
             raise DeadlockAbort() if self.aborted == "deadlock" else StepCapAbort()
+        sp = self.stall
+        if sp is not None and sp.state < 2:
+            if sp.state == 0:
+                if frame.f_code.co_filename.endswith(sp.file):
+                    c = sp.count[me] = sp.count.get(me, 0) + 1
+                    if c == sp.k and self.runnable(exclude=me):
+                        sp.state, sp.who, sp.code = 1, me, frame.f_code
+                        self.stats["stalls"] = self.stats.get("stalls", 0) + 1
+                        self.block_on(sp.token, timed=True)
+                        sp.state = 2
+                        return
+            elif me != sp.who:
+                if frame.f_code is sp.code:
+                    if not sp.seen:
+                        self.stats["stall_other_thread_entered_same_function"] = self.stats.get("stall_other_thread_entered_same_function", 0) + 1
+                    sp.seen = True
+                elif sp.seen:
+                    sp.after += 1
+                    if sp.after >= sp.m:
+                        sp.state = 2
+                        self.lock_released(sp.token)
         if self.policy.want(me, n, hot, False):
             self._yield(me, n, False, frame, hot)
 
